@@ -429,23 +429,50 @@ def annotate(evs, n):
             pend[a] = i
         elif k == K["MonWake"] and a in pend:
             wake_at[pend.pop(a)] = i
+    # The attribution has to follow the monitor's linearisation, not the positions of the `MonNotify` events: a
+    # mutex-protected group is ONE model action applied at its first event, so
+    #  * the `notify_all` of a last-parked group that ends in WakeAll happens (for the model) at the group's `MonPark`.
+    #    `on_gc_finished` resumes the mutators in the middle of that group; a resumed mutator (ConcurrentImmix: the SATB
+    #    barrier flushing into the Concurrent bucket that `schedule_concurrent_packets` has just opened) may log its
+    #    push and its `notify_one` before the worker reaches `MonLastParked`/`MonNotify(1)`.  In the model every waiter
+    #    is already `woken` then: the mutator's notify_one finds nobody (it commutes with the rest of the group — the
+    #    worker it really woke cannot leave `wait` before the group releases the mutex, and is woken either way);
+    #  * the `notify_one` of `make_request` happens at `MonRequested` (a `WorkBucket::add` of another thread, which
+    #    takes no mutex, may log its `MonNotify(0)` between `MonRequested` and the requester's `MonNotify(0)`).
+    wakeall_group = set()
+    for i, (seq, tid, k, a, b) in enumerate(evs):
+        if k == K["MonPark"] and b == 1:
+            j = next_of[i]
+            while j is not None and evs[j][2] not in (K["MonLastParked"], K["MonWait"], K["MonUnpark"], K["MonPark"]):
+                j = next_of[j]
+            if j is not None and evs[j][2] == K["MonLastParked"] and evs[j][4] == 2:
+                wakeall_group.add(i)
     target = {}
+
+    def attribute(i):
+        cands = sorted(wait_since.items(), key=lambda kv: wake_at.get(kv[1], 1 << 60))
+        if cands:
+            w = cands[0][0]
+            target[i] = w + 1
+            del wait_since[w]
+        else:
+            target[i] = 0
     for i, (seq, tid, k, a, b) in enumerate(evs):
         if k == K["MonPark"] and i in will_wait:
             wait_since[a] = i
+        elif k == K["MonPark"] and i in wakeall_group:
+            wait_since.clear()
         elif k == K["MonWake"]:
             wait_since.pop(a, None)
+        elif k == K["MonRequested"] and b == 1:
+            j = next_of[i]
+            if j is not None and evs[j][2] == K["MonNotify"] and evs[j][3] == 0:
+                attribute(j)
         elif k == K["MonNotify"]:
             if a == 1:
                 wait_since.clear()
-            else:
-                cands = sorted(wait_since.items(), key=lambda kv: wake_at.get(kv[1], 1 << 60))
-                if cands:
-                    w = cands[0][0]
-                    target[i] = w + 1
-                    del wait_since[w]
-                else:
-                    target[i] = 0
+            elif i not in target:
+                attribute(i)
     # ---- 2. packet instances: pair producers with consumers, resolve batch moves
     live = defaultdict(deque)        # key -> deque of instances (dict)
     insts = []
@@ -1157,6 +1184,12 @@ def log_mutants(evs):
     if i is not None:
         j = max(k for k in range(i) if evs[k][2] == K["GcFinishedBegin"])
         out.append(("resume-before-closes", evs[:j + 1] + [evs[i]] + evs[j + 1:i] + evs[i + 1:]))
+    # the last parked worker returns WakeAll but never calls notify_all
+    i = first(lambda e: e[2] == K["MonLastParked"] and e[4] == 2)
+    if i is not None:
+        j = first(lambda e: e[1] == evs[i][1], i + 1)
+        if j is not None and evs[j][2] == K["MonNotify"] and evs[j][3] == 1:
+            out.append(("drop-notify-all-of-wake-all-group", evs[:j] + evs[j + 1:]))
     # the seeded regression of C14 / C16: at the end of a GC the last parker goes to sleep (ParkSelf) instead of
     # responding to the stop request that arrived during the GC
     for i, e in enumerate(evs):
@@ -1173,9 +1206,123 @@ def log_mutants(evs):
     return out
 
 
+# Recorded logs of real runs (KEEP kinds, spin cycles compressed) in which a mutator resumed by `on_gc_finished` pushes a
+# ProcessModBufSATB packet into the just-opened Concurrent bucket and calls `notify_one` while the last parked worker is
+# still inside its mutex-protected group (before `MonLastParked` / `notify_all`): (name, workers, mutAddOpen)
+FIXTURES = [("conc21-w2-resume-notify", 2, True), ("conc30-w4-resume-notify", 4, True)]
+
+
+def load_fixture(name):
+    path = os.path.join(E.VERIF, "checks", "data", "sched", name + ".events")
+    return [tuple(int(x) for x in l.split(":")) for l in open(path).read().split()]
+
+
+def resume_notify_site(evs):
+    """(g, p, i, lp, na): the MonPark of a last-parked group that ends in WakeAll, a mutator's BqPush and MonNotify(0)
+    logged inside that group, the group's MonLastParked and MonNotify(1).  None if the log has no such site."""
+    grp = {}
+    for i, (seq, tid, k, a, b) in enumerate(evs):
+        if k == K["MonPark"] and b == 1:
+            grp[tid] = i
+        elif k in (K["MonUnpark"], K["MonWait"]):
+            grp.pop(tid, None)
+        elif k == K["MonNotify"] and a == 0 and tid < 100 and grp:
+            wt, g = next(iter(grp.items()))
+            p = max((j for j in range(g, i) if evs[j][1] == tid and evs[j][2] == K["BqPush"]), default=None)
+            lp = next((j for j in range(i, len(evs)) if evs[j][1] == wt and evs[j][2] == K["MonLastParked"]), None)
+            if p is None or lp is None or evs[lp][4] != 2:
+                continue
+            na = next((j for j in range(lp, len(evs)) if evs[j][1] == wt and evs[j][2] == K["MonNotify"]), None)
+            if na is not None and evs[na][3] == 1 and all(evs[j][1] != tid for j in range(p + 1, i)):
+                return g, p, i, lp, na
+    return None
+
+
+def resume_notify_mutants(evs):
+    """Corrupted versions of such a log: [(name, events, override)] — `override` = None, or (index, target) to replace
+    the front end's attribution of the `MonNotify(0)` at that index (a dishonest front end)."""
+    site = resume_notify_site(evs)
+    if site is None:
+        return []
+    g, p, i, lp, na = site
+    out = []
+    out.append(("drop-notify-all-of-wake-all-group", evs[:na] + evs[na + 1:], None))
+    # the mutator pushes and notifies BEFORE the group, i.e. before schedule_concurrent_packets enabled the bucket
+    # (only where the log itself shows that the bucket was disabled before the group and enabled inside it)
+    st = evs[p][4] & 0xff
+    flags = [j for j in range(lp) if evs[j][2] == K["BucketSetEnabled"] and evs[j][3] == st]
+    if [evs[j][4] for j in flags if j < g][-1:] == [0] and [evs[j][4] for j in flags if j > g] == [1]:
+        rest = [e for j, e in enumerate(evs[g:], g) if j not in (p, i)]
+        out.append(("mutator-notify-before-concurrent-bucket-enabled", evs[:g] + [evs[p], evs[i]] + rest, None))
+    # the group ends in ParkSelf although concurrent work was scheduled
+    e = evs[lp]
+    un = next((j for j in range(na, len(evs)) if evs[j][1] == e[1] and evs[j][2] == K["MonUnpark"]), None)
+    out.append(("wake-all-group-parks-instead", evs[:lp] + [(e[0], e[1], e[2], e[3], 0), (evs[na][0], e[1], K["MonWait"], e[3], 0)]
+                + [x for j, x in enumerate(evs[lp + 1:], lp + 1) if j not in (na, un)], None))
+    # the front end claims that the notify_one woke a worker which the group's notify_all has already woken
+    w = next((evs[j][3] for j in range(g - 1, -1, -1) if evs[j][2] == K["MonWait"]), None)
+    if w is not None:
+        out.append(("front-end-attributes-notify-to-woken-worker", evs, (i, w + 1)))
+    return out
+
+
+def annotate_override(evs, n, override):
+    toks = annotate(evs, n)
+    if override is None:
+        return toks
+    idx, tgt = override
+    seq, tid = evs[idx][0], evs[idx][1]
+    return [(t[0], t[1], t[2], t[3], tgt) if (t[0], t[1], t[2]) == (seq, tid, K["MonNotify"]) else t for t in toks]
+
+
+def fixture_selftest(model):
+    """Recorded real logs must be accepted; their corrupted versions must be rejected."""
+    stat, accepted, refused = defaultdict(lambda: [0, 0]), [], []
+    for name, n, mut_open in FIXTURES:
+        evs = load_fixture(name)
+        v, st = lean_replay(model, annotate(evs, n), n, mut_open)
+        stat["recorded-log:" + name] = [1, 0 if v.startswith("viol") else 1]       # here "rejected" counts acceptance
+        if v.startswith("viol"):
+            refused.append(f"{name}: {v[:300]}")
+        muts = resume_notify_mutants(evs)
+        if not muts:
+            refused.append(f"{name}: the log no longer contains a mutator notify inside a WakeAll group")
+        for mname, evs2, ov in muts:
+            v, st = lean_replay(model, annotate_override(evs2, n, ov), n, mut_open)
+            stat[mname][0] += 1
+            if v.startswith("viol"):
+                stat[mname][1] += 1
+            else:
+                accepted.append(f"{mname} on recorded log {name}")
+        # mutators pushing into an open bucket are only accepted under mutAddOpen
+        v, st = lean_replay(model, annotate(evs, n), n, False)
+        stat["mutator-push-into-open-bucket-without-mutAddOpen"][0] += 1
+        if v.startswith("viol"):
+            stat["mutator-push-into-open-bucket-without-mutAddOpen"][1] += 1
+        else:
+            accepted.append(f"mutator-push-into-open-bucket-without-mutAddOpen on recorded log {name}")
+    return stat, accepted, refused
+
+
 def monitor_selftest(model, results):
     """The monitor must reject every corrupted log (otherwise it would be vacuous)."""
     stat, accepted = defaultdict(lambda: [0, 0]), []
+    # live ConcurrentImmix logs: the WakeAll mutant, and any site of the resume/notify race that the run happened to hit
+    conc_done = 0
+    for r in results:
+        if not r.stats or r.prog.plan != "ConcurrentImmix" or conc_done >= 3:
+            continue
+        conc_done += 1
+        evs = [e for e in r.evs if e[2] in KEEP]
+        muts = [(nm, e2, None) for nm, e2 in log_mutants(r.evs) if nm == "drop-notify-all-of-wake-all-group"]
+        muts += [m for m in resume_notify_mutants(evs) if m[0] != "drop-notify-all-of-wake-all-group"]
+        for name, evs2, ov in muts:
+            v, st = lean_replay(model, annotate_override(evs2, r.prog.workers, ov), r.prog.workers, True)
+            stat[name][0] += 1
+            if v.startswith("viol"):
+                stat[name][1] += 1
+            else:
+                accepted.append(f"{name} on {r.prog.name}")
     done, done_stop = 0, 0
     STOPM = "last-parker-sleeps-on-pending-stop-request"
     for r in results:
@@ -1310,6 +1457,19 @@ def run_check(pid, modules, theorems, keys, build_programs, argv, meta, want_for
                                     f"another requester was in flight in {req_agg.get('rounds', 0)} `gc2`/`gcn` rounds",
                                     None, None, None, False, broken="hx_gc `gc2` (simultaneous requests)"))
     selftest, accepted = monitor_selftest(E.model_exe(), results)
+    fstat, faccepted, frefused = fixture_selftest(E.model_exe())
+    accepted += faccepted
+    for k2, (a2, b2) in fstat.items():
+        if k2.startswith("recorded-log:"):
+            selftest[k2] = {"logs": a2, "accepted": b2}
+        else:
+            cur = selftest.setdefault(k2, {"mutants": 0, "rejected": 0})
+            cur["mutants"] += a2
+            cur["rejected"] += b2
+    if frefused:
+        violations.append(Violation("sched:recorded-log-refused",
+                                    "a recorded log of a real run is no longer accepted by front end + monitor: " + "; ".join(frefused[:3]),
+                                    None, None, None, False, broken="event-log front end / conformance monitor (false alarm on real behaviour)"))
     if accepted:
         violations.append(Violation("sched:monitor-accepts-corrupted-log",
                                     "the Lean monitor accepted corrupted event logs: " + "; ".join(accepted[:5]),
@@ -1350,15 +1510,25 @@ def replay(pid, path, keys):
     stages, err = regenerate_stages()
     E.run(["lake", "build", "mmtk_model"], cwd=E.LEAN_DIR)
     bad = 0
+
+    def owned(verdict, orc, rv=""):
+        # only the failure keys of this property count (as in `run_check`); the others are printed as `other`
+        found = [tuple((verdict.split(" ", 2) + [""])[1:3])] if verdict.startswith("viol") else []
+        found += [tuple((rv.split(" ", 2) + [""])[1:3])] if rv.startswith("viol") else []
+        found += list(orc)
+        return [(k, w) for k, w in found if k in keys], sorted({k for k, w in found if k not in keys})
     evf = case.get("events_file") if isinstance(case, dict) else None
+    if evf and not os.path.exists(evf):
+        evf = os.path.join(os.path.dirname(os.path.abspath(path)), os.path.basename(evf))    # moved with the replay file
     if evf and os.path.exists(evf):
         evs = [tuple(int(x) for x in l.split(":")) for l in open(evf).read().split()]
         verdict, st = lean_replay(E.model_exe(), annotate(evs, workers), workers, plan == "ConcurrentImmix")
         orc = oracle(evs, 0, [], stages, None)
         rv, _ = lean_req_replay(E.model_exe(), req_tokens(evs))
         orc += oracle_requesters([], [], evs, True, plan == "ConcurrentImmix")[0]
-        print(f"recorded log: monitor: {verdict[:300]} requester monitor: {rv[:300]} oracle: {orc}")
-        if verdict.startswith("viol") or rv.startswith("viol") or orc:
+        mine, other = owned(verdict, orc, rv)
+        print(f"recorded log: monitor: {verdict[:300]} requester monitor: {rv[:300]} {pid}: {mine} other properties: {other}")
+        if mine:
             bad += 1
     for attempt in range(5):
         p = subprocess.run([exe], input="\n".join(lines) + "\n", capture_output=True, text=True, timeout=300)
@@ -1370,8 +1540,9 @@ def replay(pid, path, keys):
         rv, _ = lean_req_replay(E.model_exe(), req_tokens(evs))
         orc += oracle_requesters(lines, out, evs, cons.get("collects", "1") in ("1", "true"),
                                  cons.get("concurrent") in ("1", "true"))[0]
-        print(f"run {attempt}: rc={p.returncode} monitor: {verdict[:300]} requester monitor: {rv[:300]} oracle: {orc}")
-        if verdict.startswith("viol") or rv.startswith("viol") or orc:
+        mine, other = owned(verdict, orc, rv)
+        print(f"run {attempt}: rc={p.returncode} monitor: {verdict[:300]} requester monitor: {rv[:300]} {pid}: {mine} other properties: {other}")
+        if mine:
             bad += 1
     print("REPLAY:", "violation reproduced" if bad else "no longer reproduces (5 runs; schedules vary)")
     return 1 if bad else 0
